@@ -331,8 +331,15 @@ func (w *W) Census(prop string, socks ...mangos.Socket) {
 	if lt := w.LibTasks(); len(lt) > 0 {
 		var ds []string
 		site := lt[0].Site
+		if lt[0].Adopted {
+			site = libFrameSite(lt[0].Stack)
+		}
 		for _, t := range lt {
-			ds = append(ds, fmt.Sprintf("%s started at %s, %s at %s", t.ID, t.Site, t.State, t.ParkSite))
+			d := fmt.Sprintf("%s started at %s, %s at %s", t.ID, t.Site, t.State, t.ParkSite)
+			if t.Adopted {
+				d += " (a goroutine of a dependency with library code on its stack: " + libFrameSite(t.Stack) + ")"
+			}
+			ds = append(ds, d)
 		}
 		w.Failf("C10/goroutine-left:"+site, "%d library tasks remain after every socket was closed and the clock ran out:\n%s", len(lt), strings.Join(ds, "\n"))
 		return
